@@ -16,7 +16,7 @@ theorem pfxValue_val (p : Pfx) : (Pfx.value p : Mag Rat).val = ((p.base : Nat) :
     simp only [val_int]
     conv => rhs; rw [← Int.toNat_of_nonneg h]
     rw [zpow_natCast]; push_cast; rfl
-  · simp only [val_flt, ipow_eq]; rfl
+  · simp only [val_flt]; rfl
 
 /-- Unfolding of `convert` on a successful run. -/
 theorem convert_ok {c c' : Conv Rat} {q r : Qty Rat} {t : UId}
